@@ -40,7 +40,21 @@ func (fg *FnGen) frameObligations(fr *Frame, ct *Contract) {
 		names = append(names, n)
 	}
 	sort.Strings(names)
+	var skip []string
+	if ct.Options["frame_skip"] != "" {
+		skip = strings.Fields(strings.ReplaceAll(ct.Options["frame_skip"], ",", " "))
+		fg.g.useTrusted("frame of " + fg.name + " not checked for " + ct.Options["frame_skip"] + " (scratch state that no contract observes)")
+	}
 	for _, name := range names {
+		skipped := false
+		for _, p := range skip {
+			if strings.HasPrefix(name, p) {
+				skipped = true
+			}
+		}
+		if skipped {
+			continue
+		}
 		if allowed[name] || strings.HasPrefix(name, "it:") || strings.HasPrefix(name, "defer:") || strings.HasPrefix(name, "ghost:") {
 			continue
 		}
